@@ -1,0 +1,25 @@
+//go:build verif && amd64
+// +build verif,amd64
+
+package gf2p16
+
+// This file is compiled only with the "verif" build tag. It lets a
+// verification harness drive all three kernel dispatch paths (SSSE3
+// assembly, non-SSSE3 assembly, portable Go) on one machine. It adds
+// no behaviour to normal builds.
+
+// VerifHasSSSE3 returns the current value of the dispatch flag.
+func VerifHasSSSE3() bool {
+	return hasSSSE3
+}
+
+// VerifSetUseSSSE3 forces the SSSE3 dispatch flag and returns the
+// previous value. Not safe for concurrent use with the kernels.
+func VerifSetUseSSSE3(use bool) (old bool) {
+	old = hasSSSE3
+	hasSSSE3 = use
+	return old
+}
+
+// VerifPlatform names the dispatch implementation compiled in.
+const VerifPlatform = "amd64"
